@@ -166,7 +166,11 @@ def loadTrust (s : TrustStore) (file : TrustStore) : TrustStore := file.foldl (f
 
 /-- a resolved DID document: the `assertionMethod` relationships in document order -/
 structure DidDoc where
+  /-- the ASSERTION relationship (the only collection ResolveKeyByID iterates for credentials/presentations): ids as written in
+      the document — absolute (`did:…#k`) or relative (`#k`) -/
   assertion : List (String × Key)
+  /-- "@base" of the document's @context (relative ids are resolved against it) -/
+  base : Option String := none
   deriving Repr, DecidableEq, Inhabited
 
 /-- a status list credential as the node can obtain it -/
@@ -320,8 +324,15 @@ def jwtTimeOK (j : JwtInfo) (t : Time) : Bool :=
 
 /-! ### key resolution (vdr/resolver/key.go) -/
 
-def lookupKey (l : List (String × Key)) (kid : String) : Option Key :=
-  (l.find? (fun p => p.1 == kid)).map (·.2)
+/-- key.go: `localKeyId == keyID`, or — with an @base and a relative id — `base + localKeyId == keyID` -/
+def keyIdMatches (base : Option String) (localId kid : String) : Bool :=
+  localId == kid ||
+  (match base with
+   | some b => "#".toList.isPrefixOf localId.toList && b ++ localId == kid
+   | none => false)
+
+def lookupKey (base : Option String) (l : List (String × Key)) (kid : String) : Option Key :=
+  (l.find? (fun p => keyIdMatches base p.1 kid)).map (·.2)
 
 /-- DIDKeyResolver.ResolveKeyByID(keyID, {ResolveTime: at}, AssertionMethod) -/
 def resolveKeyByID (E : Env) (at_ : Option Time) (keyID : String) : Option Key :=
@@ -330,7 +341,7 @@ def resolveKeyByID (E : Env) (at_ : Option Time) (keyID : String) : Option Key :
   | some d =>
     match E.resolve at_ d with
     | none => none
-    | some doc => lookupKey doc.assertion keyID
+    | some doc => lookupKey doc.base doc.assertion keyID
 
 /-- DIDKeyResolver.ResolveKey(did, nil, AssertionMethod): first assertion method of the current document -/
 def resolveKey (E : Env) (d : String) : Option (String × Key) :=
